@@ -235,9 +235,24 @@ func BreakHTTPRule(r *R, rule, pkgPrefix, tag string) *Broken {
 	meth := &ir.Method{Name: "Bad" + tag, Input: B, Output: B}
 	switch rule {
 	case "path_var_no_field":
-		bad.Fields = []*ir.Field{{Name: "id", Number: 1, Kind: "string"}}
-		meth.Config = &ir.HTTPConfig{Path: "/things/{thing_id}", Method: Pick(r, []string{"POST", "PUT", "PATCH"})}
-		b.Offender = "thing_id"
+		switch r.Intn(3) {
+		case 0:
+			bad.Fields = []*ir.Field{{Name: "id", Number: 1, Kind: "string"}}
+			meth.Config = &ir.HTTPConfig{Path: "/things/{thing_id}", Method: Pick(r, []string{"POST", "PUT", "PATCH"})}
+			b.Offender = "thing_id"
+		case 1:
+			// the variable spells a field's JSON name (lowerCamel), not its proto name: no field matches
+			b.Variant = "json_name_of_a_field"
+			bad.Fields = []*ir.Field{{Name: "thing_id", Number: 1, Kind: "string"}, {Name: "note", Number: 2, Kind: "string"}}
+			meth.Config = &ir.HTTPConfig{Path: "/things/{thingId}", Method: Pick(r, []string{"POST", "PUT", "PATCH"})}
+			b.Offender = "thingId"
+		default:
+			// … or an explicit json_name
+			b.Variant = "explicit_json_name_of_a_field"
+			bad.Fields = []*ir.Field{{Name: "tag_name", Number: 1, Kind: "string", JSONName: "tag"}, {Name: "note", Number: 2, Kind: "string"}}
+			meth.Config = &ir.HTTPConfig{Path: "/things/{tag}", Method: Pick(r, []string{"POST", "PUT", "PATCH"})}
+			b.Offender = "tag"
+		}
 	case "path_var_non_scalar_kind":
 		k := Pick(r, []string{"message", "enum", "bytes"})
 		b.Variant = k
